@@ -152,6 +152,7 @@ class CaseResult:
         self.sample = None
         self.nontrivial = False
         self.notes = {}
+        self.timeouts = []
 
     def to_dict(self):
         return self.__dict__
@@ -186,8 +187,37 @@ def _bounded_model(solver, neg, names, box=8):
     return None
 
 
+class CaseTimeout(BaseException):
+    pass
+
+
+def _on_alarm(*a):
+    raise CaseTimeout()
+
+
 def run_case(body, spec, complex_=False, validate=False, max_paths=2000, seed=0,
-             query_timeout_ms=20000, want_sample=False):
+             query_timeout_ms=20000, want_sample=False, wall_limit=90):
+    """run_case_inner under a wall-clock limit: a case that exceeds it is *inconclusive*"""
+    import signal
+    old = signal.signal(signal.SIGALRM, _on_alarm)
+    signal.setitimer(signal.ITIMER_REAL, wall_limit)
+    try:
+        return run_case_inner(body, spec, complex_, validate, max_paths, seed, query_timeout_ms, want_sample)
+    except CaseTimeout:
+        zt._CTL[0] = None
+        res = CaseResult()
+        res.inconclusive = 1
+        res.complete = False
+        res.notes["case-timeout"] = 1
+        res.timeouts = [_short(spec)[:300]]
+        return res
+    finally:
+        signal.setitimer(signal.ITIMER_REAL, 0)
+        signal.signal(signal.SIGALRM, old)
+
+
+def run_case_inner(body, spec, complex_=False, validate=False, max_paths=2000, seed=0,
+                   query_timeout_ms=20000, want_sample=False):
     """Symbolically execute body(S, spec) on every feasible path, decide the obligations,
     replay any counterexample numerically.  Returns CaseResult."""
     res = CaseResult()
